@@ -599,9 +599,17 @@ func c14Exec(scAny any, c *simcheck.Ctx) *simcheck.Violation {
 	if !okA {
 		return nil
 	}
+	// the twin loads the project wherever the first history collected, but does not collect:
+	// both histories then consist of the same processes, apart from the collection itself
+	twin := sc.clone()
+	for i := range twin.Ops {
+		if twin.Ops[i].Op == "gc" {
+			twin.Ops[i].Op = "load-only"
+		}
+	}
 	saved := c.Tapes
 	c.Tapes = simrt.NewTapeSet(saved.Seed, saved.Snapshot())
-	without, outsB, v, okB := runHistory(c, sc, "", func(i int, op *opSpec) bool { return op.Op == "gc" }, nil)
+	without, outsB, v, okB := runHistory(c, twin, "", nil, nil)
 	c.Tapes = saved
 	if v != nil || !okB {
 		return v
